@@ -47,6 +47,22 @@ fn real_pool(seed: u64) -> HashMap<String, Vec<u8>> {
     m.insert("ed25519_pub".into(), pk6[10..].to_vec());
     let k448 = gen_key(seed ^ 0xC08, true, &Alg::Ed448, None, "c05 ed448").expect("keygen");
     m.insert("ed448_pub".into(), k448.primary_key.public_key().to_bytes().unwrap()[10..].to_vec());
+    // one public point per curve as a full MPI: genuine points where the primitive crates can make them, well-formed octets elsewhere
+    let mpi_of = |v: &[u8]| { let bits = v.len() * 8 - v[0].leading_zeros() as usize; let mut o = (bits as u16).to_be_bytes().to_vec(); o.extend_from_slice(v); o };
+    let sk = |n: usize| { let mut v = crate::c12b_rand(seed ^ n as u64, n); v[0] = 1; v };
+    m.insert("ecc_point_mpi_p256".into(), mpi_of(&crate::prim::pub_p256(&sk(32)).unwrap()));
+    m.insert("ecc_point_mpi_p384".into(), mpi_of(&crate::prim::pub_p384(&sk(48)).unwrap()));
+    m.insert("ecc_point_mpi_p521".into(), mpi_of(&crate::prim::pub_p521(&{ let mut v = sk(66); v[0] = 0; v[1] |= 1; v }).unwrap()));
+    for (name, n) in [("secp256k1", 65usize), ("brainpoolp256r1", 65), ("brainpoolp384r1", 97), ("brainpoolp512r1", 129), ("unknown", 65)] {
+        let mut v = crate::c12b_rand(seed ^ 0xEC ^ n as u64, n);
+        v[0] = 4;
+        m.insert(format!("ecc_point_mpi_{name}"), mpi_of(&v));
+    }
+    for name in ["ed25519legacy", "curve25519legacy"] {
+        let mut v = vec![0x40u8];
+        v.extend(crate::prim::x25519_public(&crate::c12b_rand(seed ^ 0xED, 32)).unwrap());
+        m.insert(format!("ecc_point_mpi_{name}"), mpi_of(&v));
+    }
     m
 }
 
